@@ -48,4 +48,22 @@ CHECKS["C06"] = {
          "liveness). Design level: SourcePersist.tla (teardown sequence, drain) model-checked incl. liveness.",
  "note": DP_NOTE + " Bounded liveness: 40 s with every gate open.",
  "technique": "TLA+ model checking (TLC) of the drain mechanism + TLC trace validation of real-engine traces"}
+CHECKS["C07"] = {
+ "text": "Window level: DLQWindow.tla (the property's sliding-window wording and both ring buffers run in lock step) is "
+         "model-checked exhaustively over every (N,T) and every outcome sequence; the two REAL windows are driven through "
+         "their exported API with ALL outcome sequences of length 8 (quick) / 11 (thorough) for all 11 (N,T) pairs under "
+         "three v2 batch partitions and TLC validates every single decision, v1/v2 parity and the delivered DLQ records. "
+         "Engine level: real pipelines with scripted rejection patterns x windows, DLQ write/ack/open failures and "
+         "fan-out partial rejection; TLC validates DlqOnce, DlqSourceOrder, DlqBeforeAck, DlqCarriesOriginal, "
+         "DlqDecision, DlqFailNoAck, DlqStops on every trace.",
+ "note": DP_NOTE + " Parity is asserted for outcome sequences reaching one window (single source); v2's per-source windows are a documented difference.",
+ "technique": "TLA+ model checking (TLC) + exhaustive sequence enumeration through the real windows validated by TLC + TLC trace validation of engine traces"}
+CHECKS["C08"] = {
+ "text": "Accounting.tla states each record's outcome as a function of its own results; TLC enumerates the whole case "
+         "space (result kinds at two chained stages x destination outcomes) and exports it with the expected outcome "
+         "vectors; every case is replayed on the real v2 engine (v1-expressible subset on v1) with stage 2 at pipeline or "
+         "destination level, with/without fan-out, short results, and the observed outcome of every record is compared; "
+         "TLC additionally validates each trace (ExactlyOne, NoEarlyAck over split pieces, DlqOnce, DlqOriginal, "
+         "WriteDerived, PositionImmutable, AckPrefix).",
+ "note": DP_NOTE, "technique": "TLC-enumerated case space replayed on the real engine + TLC trace validation"}
 NOT_APPLICABLE = {}
